@@ -256,6 +256,7 @@ prop(
     level="other",
     design_ref="DESIGN.md section 3, C05",
     groups=[(_PIPE, r"^(\(\*Pipeline\)\.(In|finalize)|\(\*lowMemoryEventPool\)\.(get|back|inUse)|\(\*Event\)\.reset|\(\*processor\)\.(doActions|processSequence))$")],
+    canaries=[("./pipeline", "replay/C05/zz_sample_after_back_test.go", "TestVerifSampleReadsLiveEvent")],
     claim=(
         "Linear ownership accounting proved per function: Pipeline.In takes at most one event from the pool and on every exit path has either streamed it or returned it (held == 0 at every return); "
         "finalize returns a regular event to the pool exactly once iff asked and never for timeout/child events; doActions finalizes at most once; processSequence hands a passed event to the output exactly once; "
@@ -434,6 +435,7 @@ prop(
     level="other",
     design_ref="DESIGN.md section 3, C03",
     groups=[(["./plugin/input/file", "./pipeline"], r"^(\(\*Plugin\)\.PassEvent|\(\*jobProvider\)\.(commit|truncateJob|initJobOffset|addJob)|\(\*worker\)\.(processEOF|work))$")],
+    canaries=[("./plugin/input/file", "replay/C03/zz_truncation_tail_test.go", "TestVerifTruncationDropsStaleTail")],
     claim=(
         "The sequential facts the kill-and-restart argument rests on, each a proved contract: on resume an event is dropped as already delivered only if its stream has a saved offset and the event's offset is not beyond it (PassEvent); "
         "commit stores the event's own offset, under the job lock, strictly larger than the stream's previous offset, and only for regular / split-parent events newer than the last truncation; "
